@@ -109,6 +109,9 @@ type Client struct {
 	// Decide is consulted (under no lock) for every write-class RPC (Txn with puts/deletes, Put,
 	// DeleteRange) and for reads when FaultReads is set; it returns the fault to inject.
 	Decide func(r *RPC) FaultMode
+	// After, when non-nil, is called synchronously after an RPC completed at the server (before
+	// the reply is handed back to pd): "the write is durable, the process has not seen the ack yet".
+	After func(r *RPC)
 	// Gate / Done hooks for the scheduler (kind = method, key = first key touched).
 	Gate func(kind, key string)
 	Done func(kind, key string)
@@ -239,6 +242,9 @@ func (c *Client) intercept(ctx context.Context, method string, req, reply interf
 		c.log = append(c.log, r)
 	}
 	c.mu.Unlock()
+	if c.After != nil {
+		c.After(&r)
+	}
 	if c.Done != nil && gated {
 		c.Done(r.Method, r.firstKey())
 	}
